@@ -188,9 +188,39 @@ def _bad_op(rng, sh, k, corrupt_fn=None):
              "dup_link", "grp_clash", "grp_tag_conflict", "readd_connected", "bad_value",
              "ref_clash", "ref_clash", "hdr_multi", "rename_malformed", "del_id", "placeholder_clash",
              "invalid_then_rm", "self_mention", "unknown_then_clash", "hdr_bad_predefined", "header_add",
-             "grp_jstring", "unknown_then_malformed", "set_field_none"]
+             "grp_jstring", "unknown_then_malformed", "set_field_none", "stale_handle", "stale_handle",
+             "anonymise_mentioned"]
     kind = rng.choice(kinds)
     tags = gen_tags(rng, k)
+    if kind == "stale_handle":
+        # the caller keeps a handle to a line that is replaced afterwards (a placeholder by its definition, the
+        # first line of a group by the merged group), then removes / disconnects / renames through the handle
+        x = sh.fresh(rng)
+        y = rng.choice(segs) if segs else sh.fresh(rng)
+        how = rng.choice(["rm", "disconnect", "rename"])
+        if v == "gfa2" and rng.random() < 0.5:
+            rt = rng.choice("OU")
+            sfx = "+" if rt == "O" else ""
+            first, second = "%s\t%s\t%s%s" % (rt, x, y, sfx), "%s\t%s\t%s%s" % (rt, x, sh.fresh(rng), sfx)
+            sh.note(first)
+            return kind, [{"op": "add", "line": first, "as": "obj"}, {"op": "hold", "what": "last_obj"},
+                          {"op": "add", "line": second, "as": "str"}, {"op": "held_call", "how": how, "new": sh.fresh(rng)}]
+        if v == "gfa1":
+            ref, dfn = "L\t%s\t+\t%s\t-\t*" % (x, y), "S\t%s\t*" % x
+        else:
+            ref, dfn = "E\t*\t%s+\t%s-\t0\t1\t0\t1\t*" % (x, y), "S\t%s\t8\t*" % x
+        sh.note(ref)
+        sh.note(dfn)
+        return kind, [{"op": "add", "line": ref, "as": "str"}, {"op": "hold", "id": x},
+                      {"op": "add", "line": dfn, "as": "str"}, {"op": "held_call", "how": how, "new": sh.fresh(rng)}]
+    if kind == "anonymise_mentioned" and v == "gfa2":
+        # a line that groups mention is renamed to '*': refused, or everything stays writable and closed
+        cand = [q for q in ids if sh.named[q] in ("E", "G", "O", "U", "S")]
+        if cand:
+            nm = rng.choice(cand)
+            g1 = "U\t%s\t%s" % (sh.fresh(rng), nm)
+            sh.note(g1)
+            return kind, [{"op": "add", "line": g1, "as": "str"}, {"op": "rename", "id": nm, "new": "*"}]
     if kind == "hdr_bad_predefined":
         # a good tag followed, in the same H line, by a predefined tag with a wrong datatype / an invalid value
         bad = rng.choice(["TS:Z:100", "VN:i:2", 'jj:J:"abc"', "TS:i:x", "VN:Z:9.9", "zq:i:1"])
